@@ -31,7 +31,13 @@ struct Shape {
     int32_t version = 2; uint32_t locktime = 0;
     std::vector<uint32_t> sequences;      // per input (default 0xfffffffe)
     int64_t amount = 100000000;
+    int pad = 0, pad2 = 0;                // p2wsh-checksig / p2tr-script: the script starts with <pad bytes> DROP [<pad2 bytes> DROP] (scripts larger than one stack element)
 };
+inline bytes pad_prefix(const Shape& sh) {
+    bytes r;
+    for (int n : {sh.pad, sh.pad2}) if (n > 0) { bytes d(n, 0x5a); bytes p = push_raw(d); r.insert(r.end(), p.begin(), p.end()); r.push_back(0x75); }
+    return r;
+}
 
 struct Spend {
     std::string type;
@@ -108,7 +114,7 @@ inline Spend make_spend(const std::string& type, const Shape& sh, uint8_t ht = 1
         bytes ws = script_cat({op(0x52), push_raw(k1.pub), push_raw(k2.pub), push_raw(k3.pub), op(0x53), op(0xae)});
         finish_v0(p2wsh_spk(ws), {}, ws, [&](const std::vector<bytes>& s) { return std::vector<bytes>{{}, s[0], s[1], ws}; }, {&k1, &k2});
     } else if (type == "p2wsh-checksig") {
-        bytes ws = script_cat({push_raw(k1.pub), op(0xac)});
+        bytes ws = script_cat({pad_prefix(sh), push_raw(k1.pub), op(0xac)});
         finish_v0(p2wsh_spk(ws), {}, ws, [&](const std::vector<bytes>& s) { return std::vector<bytes>{s[0], ws}; }, {&k1});
     } else if (type == "p2sh-p2wpkh") {
         bytes redeem = p2wpkh_spk(k1.pub);
@@ -131,7 +137,7 @@ inline Spend make_spend(const std::string& type, const Shape& sh, uint8_t ht = 1
         if (annex) S.tx.vin[sh.pos].witness.push_back(ann);
     } else if (type == "p2tr-script") {
         // leaf: <xonly k2> CHECKSIG ; path of `pathlen` sibling hashes
-        S.leaf_script = script_cat({push_raw(k2.xonly), op(0xac)});
+        S.leaf_script = script_cat({pad_prefix(sh), push_raw(k2.xonly), op(0xac)});
         bytes k = tapleaf_hash(0xc0, S.leaf_script);
         std::vector<bytes> path;
         for (int i = 0; i < pathlen; i++) { bytes node = sha256(bytes{'n', 'o', 'd', 'e', uint8_t(i), uint8_t(seed)}); if (i % 2) node[0] = 0x00; else node[0] = 0xff; path.push_back(node); k = tapbranch_hash(k, node); }
